@@ -134,6 +134,22 @@ CLAIMED["C15"] = dict(
     design="DESIGN.md section 6, C15",
 )
 
+CLAIMED["C06"] = dict(
+    text="Lean 4 theorems over a state-machine model of Differ / Patcher instances and over the attribute-action generator: after "
+    "any history of calls on one object, diff(l, r) and patch(script, tree) return what a fresh object returns "
+    "(C06_differ_history, C06_patcher_history; the Differ model includes repair e27efba); sorted() over distinct keys does not "
+    "depend on the order in which a set yields them, so the attribute actions cannot depend on PYTHONHASHSEED "
+    "(C06_sorted_order_indep, a proof that strLt is a strict total order and insertion sort is order-independent); frame property "
+    "of the model. PARTIAL by nature: real aliasing of lxml objects, CPython hash iteration and lxml's process-global prefix "
+    "registry are runtime behaviour; they are observed on every run by unit U12 (histories on one instance incl. abandoned "
+    "generators, reused formatters and patchers, input and action-list serialisations before/after, polluted registry, "
+    "subprocesses under several PYTHONHASHSEED values), not proved.",
+    note="Trusted: Lean kernel and standard axioms; the instance model is hand-written and compared with the real objects by U12; "
+    "wall-clock dependence of the text-diff deadline is not exhibited by generated inputs. Fixed defect e27efba recorded.",
+    technique="Lean 4 proof (instance state machines, order-independence of sorting) + history / hash-seed differential runs",
+    design="DESIGN.md section 6, C06",
+)
+
 NOT_YET = {}
 
 
